@@ -22,7 +22,7 @@ import (
 func init() {
 	core.Register(&core.Property{
 		ID:   "C13",
-		Rule: "items = System value pool (every type, precision, boundary) ∪ FHIR primitive and complex elements (fixed carriers and every element of generated resources of all 146 R4 types, model value taken from the FHIR JSON) ∪ seeded one/two-edit mutants of valid renderings ∪ strings from a grammar of valid / near-valid renderings (incl. ' 1', '+1', '1e3', 'T', 'yes', '2020-13-01', '24:00', \"5 'mg'\", '5', '5 days'); for every (item, target T in the 8 System types): convertsToT ⇔ toT non-empty, unconvertible ⇒ empty, result is of type T, toT idempotent, x.toString().toT() = x for x of type T, success set = FHIRPath conversion table (DESIGN A.4). $this used by two conversions (all 64 target pairs) and the caller's collection compared afterwards; distinct_nontrivial = distinct (item, target) pairs the conversion table decides as convertible, excluding identity conversions",
+		Rule: "items = System value pool (every type, precision, boundary) ∪ FHIR primitive and complex elements (fixed carriers incl. date / coarse dateTime elements whose instant lies inside their period, and every element of generated resources of all 146 R4 types, model value taken from the FHIR JSON) ∪ seeded one/two-edit mutants of valid renderings ∪ strings from a grammar of valid / near-valid renderings (incl. ' 1', '+1', '1e3', 'T', 'yes', '2020-13-01', '24:00', \"5 'mg'\", '5', '5 days'); for every (item, target T in the 8 System types): convertsToT ⇔ toT non-empty, unconvertible ⇒ empty, result is of type T, toT idempotent, x.toString().toT() = x for x of type T, success set = FHIRPath conversion table (DESIGN A.4). $this used by two conversions (all 64 target pairs) and the caller's collection compared afterwards; distinct_nontrivial = distinct (item, target) pairs the conversion table decides as convertible, excluding identity conversions",
 		Assumptions: []string{"the conversion table of DESIGN A.4 (from N1 §5.5) decides strings by regular expressions; renderings the table does not mention (trailing 'T' on partial DateTimes, Decimal 1.00 -> Boolean) are only subject to the consistency laws"},
 		Run:    runC13,
 		Checks: map[string]func(*core.Env, []json.RawMessage){"conv": replayC13, "conv-res": replayC13Res, "conv-str": replayC13Str},
